@@ -659,6 +659,19 @@ func (tb *TB) Bin(op Op, a, b *Term) *Term {
 		if ra := tb.Range(a); ra.uhi < b.Val {
 			return a
 		}
+		// (y*c' + k) mod c == k mod c when c divides c' and nothing wraps
+		x, k := a, uint64(0)
+		if a.Op == OpAdd && a.Args[1].IsConst() {
+			x, k = a.Args[0], a.Args[1].Val
+		}
+		if x.Op == OpMul && x.Args[1].IsConst() && x.Args[1].Val%b.Val == 0 {
+			rx := tb.Range(x)
+			ry := tb.Range(x.Args[0])
+			hi, ov := umulOv(ry.uhi, x.Args[1].Val)
+			if !ov && hi == rx.uhi && hi <= mask(w)-k {
+				return tb.Const(w, k%b.Val)
+			}
+		}
 	}
 	if (op == OpUDiv) && b.IsConst() && b.Val > 0 {
 		if ra := tb.Range(a); ra.uhi < b.Val {
